@@ -426,11 +426,12 @@ def replay(path):
             print('property clauses violated now:', oracle(float(lon), float(lat), c))
         else:
             print('implementation now:', res)
-    elif m.get('k') == 'eq':
+    elif m.get('k') in ('eq', 'eq-stored'):
         a = [eval(x) for x in m['a']]
         b = [eval(x) for x in m['b']]
         A, B = Coordinate(*a), Coordinate(*b)
-        print('implementation now: ==', A == B, ' hash equal', hash(A) == hash(B))
+        print('implementation now: a == b', A == B, ' b == a', B == A, ' hash equal', hash(A) == hash(B), ' len({a, b})', len({A, B}))
+        print('  stored a:', (A.longitude, A.latitude, A.z, A.m), ' stored b:', (B.longitude, B.latitude, B.z, B.m))
     print('gallina case:', r.get('gallina_case'))
 
 
